@@ -5,6 +5,7 @@
 package core
 
 import (
+	"crypto/md5"
 	"encoding/json"
 	"fmt"
 	"hash/fnv"
@@ -344,3 +345,6 @@ func (r *Rec) Drain() map[string]string {
 	r.Violations = map[string]*ViolationRec{}
 	return out
 }
+
+// Sum16 is the MD5 of b (used as a compact content fingerprint in observations).
+func Sum16(b []byte) [16]byte { return md5.Sum(b) }
